@@ -234,7 +234,7 @@ def run(ctx):
         for rec in info.get("splits", {}).values():
             cmp(rec["shard_list_info_file"]); walk(rec["shard_list_info_file"]["file_path"])
         return bad
-    for variant in ("held-back-then-appended", "two-held-back"):
+    for variant in ("held-back-then-appended", "two-held-back", "held-back-while-a-sibling-commits", "three-writers-last-one-publishes"):
         names = [ALGOS[(ctx.seed + 3) % len(ALGOS)], "sha256"]
         root = ctx.scratch / f"c16_{variant}"
         ds = sp.mk(root, fmt="fb", eps=2, hashes=tuple(names))
@@ -249,6 +249,26 @@ def run(ctx):
         if variant == "held-back-then-appended":
             held = fill("part", 2, auto=False); fill("part", 3)
             ds.write_config(updated_infos=held.get_updated_infos())
+        elif variant == "held-back-while-a-sibling-commits":
+            # `part` is rewritten on disk (its infos held back) and only the sibling `other` is published: whatever the parent list
+            # records about part's list is the digest of the file as it is now
+            held = fill("part", 2, auto=False); fill("other", 2)
+            bad0 = recorded_vs_real(root, names)
+            if bad0:
+                ctx.report({"kind": "digest", "site": "recorded-after-held-back-infos", "variant": variant},
+                           f"{variant}: after the sibling's commit the checksums recorded for {bad0[:3]} are not the digests of the files on disk", {"variant": variant, "names": names, "files": bad0})
+            ds.write_config(updated_infos=held.get_updated_infos())
+        elif variant == "three-writers-last-one-publishes":
+            for rnd in range(3):
+                fill("w0", 2, auto=(rnd == 0)); fill("w1", 1, auto=(rnd == 0)); fill("w2", 2)
+                bad0 = recorded_vs_real(root, names)
+                if bad0:
+                    ctx.report({"kind": "digest", "site": "recorded-after-held-back-infos", "variant": variant},
+                               f"{variant}: round {rnd}: the checksums recorded for {bad0[:3]} are not the digests of the files on disk", {"variant": variant, "names": names, "files": bad0, "round": rnd})
+                    break
+            # (the writers' held-back shards of rounds 1-2 are on disk in their own lists but were never published: what is reachable is checked)
+            shutil.rmtree(root, ignore_errors=True)
+            continue
         else:
             h1 = fill("part", 2, auto=False); h2 = fill("part", 3, auto=False)
             ds.write_config(updated_infos=h1.get_updated_infos() + h2.get_updated_infos())
